@@ -175,3 +175,98 @@ pub proof fn lemma_close_trace(version: crate::http::Version, headers: Seq<Hdr>,
 {
 }
 ''')
+
+# ---------------------------------------------------------------------------------------- C03 history (chunked request body)
+RAW('''
+use crate::body::{chunk_bytes, chunked_with, all_pos, total, is_chunking, term_bytes};
+use crate::client::call::chunked_step;
+/// `bytes` is a sequence of complete non-empty chunks whose concatenated data is exactly `data`
+pub open spec fn chunk_stream(bytes: Seq<u8>, data: Seq<u8>) -> bool {
+    exists|sizes: Seq<nat>| all_pos(sizes) && total(sizes) == data.len() && bytes == #[trigger] chunked_with(data, sizes)
+}
+/// one data write (non-empty input) of a chunked request body, as the contract of Call<WithBody>::write describes it
+pub struct ChunkedCall { pub input: Seq<u8>, pub emitted: Seq<u8>, pub consumed: nat }
+pub open spec fn chunked_calls_ok(calls: Seq<ChunkedCall>) -> bool {
+    forall|i: int| 0 <= i < calls.len() ==> is_chunking((#[trigger] calls[i]).emitted, calls[i].input, calls[i].consumed)
+}
+pub open spec fn wire(calls: Seq<ChunkedCall>) -> Seq<u8>
+    decreases calls.len()
+{ if calls.len() == 0 { Seq::<u8>::empty() } else { wire(calls.drop_last()) + calls.last().emitted } }
+pub open spec fn sent(calls: Seq<ChunkedCall>) -> Seq<u8>
+    decreases calls.len()
+{ if calls.len() == 0 { Seq::<u8>::empty() } else { sent(calls.drop_last()) + calls.last().input.subrange(0, calls.last().consumed as int) } }
+''')
+PROOF('lemma_chunked_writes_history', ['C03', 'C01'], '''
+/// the chunk encoding only looks at the bytes it covers
+pub proof fn lemma_chunked_with_prefix(a: Seq<u8>, b: Seq<u8>, sizes: Seq<nat>)
+    requires total(sizes) <= a.len(), a.is_prefix_of(b)
+    ensures chunked_with(a, sizes) == chunked_with(b, sizes)
+    decreases sizes.len()
+{
+    if sizes.len() > 0 {
+        let p = sizes.drop_last();
+        lemma_chunked_with_prefix(a, b, p);
+        assert(a.subrange(total(p) as int, (total(p) + sizes.last()) as int) =~= b.subrange(total(p) as int, (total(p) + sizes.last()) as int));
+    }
+}
+pub proof fn lemma_total_concat(s1: Seq<nat>, s2: Seq<nat>)
+    ensures total(s1 + s2) == total(s1) + total(s2)
+    decreases s2.len()
+{
+    if s2.len() == 0 { assert(s1 + s2 =~= s1); } else {
+        assert((s1 + s2).drop_last() =~= s1 + s2.drop_last());
+        lemma_total_concat(s1, s2.drop_last());
+    }
+}
+/// two chunk streams concatenate to a chunk stream of the concatenated data
+pub proof fn lemma_chunked_with_concat(d1: Seq<u8>, s1: Seq<nat>, d2: Seq<u8>, s2: Seq<nat>)
+    requires total(s1) == d1.len(), total(s2) == d2.len()
+    ensures chunked_with(d1 + d2, s1 + s2) == chunked_with(d1, s1) + chunked_with(d2, s2)
+    decreases s2.len()
+{
+    if s2.len() == 0 {
+        assert(s1 + s2 =~= s1);
+        lemma_chunked_with_prefix(d1, d1 + d2, s1);
+        assert(chunked_with(d1, s1) + chunked_with(d2, s2) =~= chunked_with(d1, s1));
+    } else {
+        let p2 = s2.drop_last();
+        let k = s2.last();
+        assert((s1 + s2).drop_last() =~= s1 + p2);
+        lemma_total_concat(s1, p2);
+        // induction on the data of the shorter size list
+        let d2p = d2.subrange(0, total(p2) as int);
+        lemma_chunked_with_concat(d1, s1, d2p, p2);
+        lemma_chunked_with_prefix(d1 + d2p, d1 + d2, s1 + p2);
+        lemma_chunked_with_prefix(d2p, d2, p2);
+        assert((d1 + d2).subrange((total(s1) + total(p2)) as int, (total(s1) + total(p2) + k) as int) =~= d2.subrange(total(p2) as int, (total(p2) + k) as int));
+        assert(chunked_with(d1 + d2, s1 + s2) =~= chunked_with(d1, s1) + chunked_with(d2, s2));
+    }
+}
+/// C03: over ANY sequence of data writes the bytes on the wire are complete non-empty chunks whose data is, byte for byte,
+/// the concatenation of the input bytes reported consumed
+pub proof fn lemma_chunked_writes_history(calls: Seq<ChunkedCall>)
+    requires chunked_calls_ok(calls)
+    ensures /*@OBL:C03.history_wire_is_chunking_of_consumed*/ chunk_stream(wire(calls), sent(calls))
+    decreases calls.len()
+{
+    if calls.len() == 0 {
+        let e = Seq::<nat>::empty();
+        assert(chunked_with(Seq::<u8>::empty(), e) =~= Seq::<u8>::empty());
+        assert(all_pos(e) && total(e) == 0);
+    } else {
+        let c2 = calls.drop_last();
+        assert(chunked_calls_ok(c2)) by { assert forall|i: int| 0 <= i < c2.len() implies is_chunking((#[trigger] c2[i]).emitted, c2[i].input, c2[i].consumed) by { assert(c2[i] == calls[i]); } }
+        lemma_chunked_writes_history(c2);
+        let last = calls.last();
+        assert(is_chunking(last.emitted, last.input, last.consumed));
+        let s1 = choose|sizes: Seq<nat>| all_pos(sizes) && total(sizes) == sent(c2).len() && wire(c2) == #[trigger] chunked_with(sent(c2), sizes);
+        let s2 = choose|sizes: Seq<nat>| all_pos(sizes) && total(sizes) == last.consumed && last.consumed <= last.input.len() && last.emitted == #[trigger] chunked_with(last.input, sizes);
+        let d2 = last.input.subrange(0, last.consumed as int);
+        lemma_chunked_with_prefix(d2, last.input, s2);
+        lemma_chunked_with_concat(sent(c2), s1, d2, s2);
+        lemma_total_concat(s1, s2);
+        assert(all_pos(s1 + s2));
+        assert(wire(calls) == chunked_with(sent(calls), s1 + s2));
+    }
+}
+''')
